@@ -524,6 +524,9 @@ class WriterThread(threading.Thread):
                             index_name, events = args
                             INDEXES[index_name].bulk_update(events, txn)
                         counter["count"] += 1
+                if operation == "add" and len(args) > 1:
+                    # the transaction is committed: tell who is waiting for that
+                    args[1]()
                 qs = qsize()
                 if qs >= 1000 and qs % 1000 == 0:
                     # since we can do about 1,000 writes per second (end-to-end),
@@ -687,9 +690,24 @@ class LMDBStorage(BaseStorage):
                     # duplicate: nothing to do, and nobody needs to be notified again
                     return event, False
             self.writer_thread.pending.add(event.id)
-            self.writer_queue.put(("add", [event]))
+            self.writer_queue.put(("add", [event, self._written_callback(event)]))
         await self.post_save(event)
         return event, True
+
+    def _written_callback(self, event: Event):
+        """
+        Return a function for the writer thread to call when the event is stored:
+        only then can the other processes read it, so only then are they notified
+        """
+        loop = self.loop
+
+        def notify():
+            asyncio.ensure_future(self.notify_other_processes(event))
+
+        def written():
+            loop.call_soon_threadsafe(notify)
+
+        return written
 
     def check_storable(self, event: Event):
         """
@@ -713,8 +731,7 @@ class LMDBStorage(BaseStorage):
 
     async def post_save(self, event: Event, **kwargs):
         await self.notify_all_connected(event)
-        # notify other processes
-        await self.notify_other_processes(event)
+        # other processes are notified when the writer thread has stored the event
 
     async def reindex(
         self, index_name: str, batch_size=500, kinds=(1, 0), since=1, until=0
